@@ -90,6 +90,8 @@ def _wrap_store(v, wrap):
 class Arr(object):
   """N-d array as nested lists (row major)."""
 
+  dtype = None  # only recorded when the harness sets it (make_stereo)
+
   def __init__(self, data, wrap=None):
     self.data = data
     self.shape = _shape_of(data)
@@ -180,6 +182,15 @@ class Arr(object):
       st, en, sp = _conc_slice(k, shape[0])
       return [self._get(d[i], rest, shape[1:]) for i in range(st, en, sp)]
     if isinstance(k, (Arr, list)):
+      idxs = k.data if isinstance(k, Arr) else k
+      if (not rest and len(idxs) == shape[0] and idxs and all(
+          isinstance(i, (bool, _np.bool_, symex.SymBool)) for i in idxs)):
+        # 1-d boolean mask (symbolic entries fork)
+        return [d[j] for j, m in enumerate(idxs) if bool(m)]
+      if all(isinstance(i, int) and not isinstance(i, bool) for i in idxs) and (
+          not any(isinstance(r, (Arr, list)) for r in rest)):
+        # one list of concrete integers, the other axes sliced: a[idx, :]
+        return [self._get(d[_idx(i, shape[0])], rest, shape[1:]) for i in idxs]
       raise Unsupported('fancy indexing')
     i = _idx(k, shape[0])
     return self._get(d[i], rest, shape[1:])
@@ -194,10 +205,35 @@ class Arr(object):
       for r, c_ in zip(rows, cols):
         self.data[r][c_] = value
       return
+    if isinstance(key, Arr) and key.ndim >= 2 and key.shape == self.shape:
+      # boolean mask of the array's own shape: row-major assignment
+      flat_mask = key.flatten().data
+      if not all(isinstance(m, (bool, _np.bool_)) for m in flat_mask):
+        raise Unsupported('symbolic boolean mask assignment')
+      vals = _to_data(value)
+      if isinstance(vals, list):
+        if len(vals) != sum(1 for m in flat_mask if m):
+          raise ValueError('NumPy boolean array indexing assignment cannot '
+                           'assign %d input values to the %d output values '
+                           'where the mask is true' % (
+                               len(vals), sum(1 for m in flat_mask if m)))
+        it = iter(vals)
+      pos = [0]
+
+      def rec(d, m):
+        for j in range(len(d)):
+          if isinstance(d[j], list):
+            rec(d[j], m[j])
+          elif m[j]:
+            d[j] = next(it) if isinstance(vals, list) else vals
+      rec(self.data, key.data)
+      return
     if isinstance(key, (list, Arr)) and self.ndim == 1:
       idxs = key.data if isinstance(key, Arr) else key
-      for i in idxs:
-        self.data[_idx(i, self.shape[0])] = value
+      vals = _to_data(value)
+      for n, i in enumerate(idxs):
+        self.data[_idx(i, self.shape[0])] = (vals[n] if isinstance(vals, list)
+                                             else vals)
       return
     key = self._norm_key(key)
     value = _wrap_store(_to_data(value), self.wrap)
@@ -240,22 +276,37 @@ class Arr(object):
 
   # ---- element-wise
   def _ew(self, o, f):
+    """Element-wise f with numpy broadcasting (shapes aligned on the trailing
+    axes, axes of length 1 stretched)."""
     o = _to_data(o)
 
-    def rec(a, b):
-      if isinstance(a, list):
-        if isinstance(b, list):
-          if len(a) != len(b):
-            if len(b) == 1:
-              return [rec(x, b[0]) for x in a]
-            raise ValueError('operands could not be broadcast together')
-          return [rec(x, y) for x, y in zip(a, b)]
-        return [rec(x, b) for x in a]
-      if isinstance(b, list):
-        return [rec(a, y) for y in b]
-      return f(a, b)
+    def shape_of(d):
+      sh = []
+      while isinstance(d, list):
+        sh.append(len(d))
+        if not d:
+          break
+        d = d[0]
+      return tuple(sh)
 
-    return Arr(rec(self.data, o))
+    def rec(a, sa, b, sb):
+      if not sa and not sb:
+        return f(a, b)
+      if len(sa) > len(sb):
+        return [rec(x, sa[1:], b, sb) for x in a]
+      if len(sb) > len(sa):
+        return [rec(a, sa, y, sb[1:]) for y in b]
+      if sa[0] == sb[0]:
+        return [rec(x, sa[1:], y, sb[1:]) for x, y in zip(a, b)]
+      if sb[0] == 1:
+        return [rec(x, sa[1:], b[0], sb[1:]) for x in a]
+      if sa[0] == 1:
+        return [rec(a[0], sa[1:], y, sb[1:]) for y in b]
+      raise ValueError('operands could not be broadcast together with shapes '
+                       '%r %r' % (sa, sb))
+
+    r = rec(self.data, shape_of(self.data), o, shape_of(o))
+    return Arr(r) if isinstance(r, list) else r
 
   def __add__(self, o):
     return self._ew(o, lambda a, b: a + b)
@@ -278,6 +329,12 @@ class Arr(object):
 
   def __neg__(self):
     return self._ew(0, lambda a, b: -a)
+
+  def __mod__(self, o):
+    return self._ew(o, lambda a, b: a % b)
+
+  def __floordiv__(self, o):
+    return self._ew(o, lambda a, b: a // b)
 
   def __gt__(self, o):
     return self._ew(o, lambda a, b: a > b)
@@ -587,6 +644,28 @@ def log(x):
   if symex.is_sym(x):
     raise Unsupported('log of a symbolic value')
   return _math.log(x) if x > 0 else float('-inf')
+
+
+def bincount(x, weights=None, minlength=0):
+  """Counts of each value; symbolic entries give symbolic counts (the number
+  of bins is minlength, or enough for the concrete entries)."""
+  if weights is not None:
+    raise Unsupported('bincount weights')
+  vals = list(_to_data(x))
+  conc = [v for v in vals if not symex.is_sym(v)]
+  n = max([minlength] + [int(v) + 1 for v in conc])
+  if any(symex.is_sym(v) for v in vals) and not minlength:
+    raise Unsupported('bincount of symbolic values without minlength')
+  out = []
+  for k in range(n):
+    cnt = 0
+    for v in vals:
+      if symex.is_sym(v):
+        cnt = cnt + symex.If(v == k, 1, 0)
+      elif v == k:
+        cnt = cnt + 1
+    out.append(cnt)
+  return Arr(out)
 
 
 def isscalar(x):
